@@ -48,6 +48,20 @@ def fair(inst, window=32):
     return out
 
 
+def _structural(key):
+    """logic in a clock domain that is neither declared nor scheduled is reported as a violation of the crossing's structure"""
+    def deco(fn):
+        def run(case):
+            try:
+                return fn(case)
+            except cdc.UnclockedLogic as ex:
+                return bad("structure", "the design under test has logic clocked by undeclared domain(s) %s: it would never run" % ex,
+                           key=key)
+        run.__name__ = fn.__name__
+        return run
+    return deco
+
+
 def edges_at(inst, n):
     """number of edges of each domain among the first n instants"""
     return [sum(1 for c in inst[:n] if c & 1), sum(1 for c in inst[:n] if c & 2)]
@@ -65,7 +79,7 @@ def st_stream_case(tier):
             lay = {"pl": [["data", 8]], "ql": []}
             c["buffered"] = False
         else:
-            lay = draw(streams.st_layout(max_fields=3, max_w=8))
+            lay = draw(streams.st_layout(max_fields=3, max_w=12))
         c["lay"] = lay
         pw = [w for _, w in lay["pl"]]
         qw = [w for _, w in lay["ql"]]
@@ -84,6 +98,24 @@ def st_stream_case(tier):
                           "pre": draw(st.sampled_from([0, 0, 2, 4, 8, 12]))}
         return c
     return case()
+
+
+def enum_stream(tier):
+    """every phase alignment of small-ratio periodic clocks x three resolution policies, plain and common-reset variant"""
+    out = []
+    pers = [1, 2, 3, 5] if tier == "quick" else [1, 2, 3, 4, 5, 7]
+    toks = streams.numbered_tokens([8, 3], [4], 16, lasts=(3, 9))
+    for pa in pers:
+        for pb in pers:
+            for ob in range(pb if tier != "quick" else min(pb, 2)):
+                for meta in ([0, 0], [8, 1], [4, 2]):
+                    for v in (0, 1):
+                        c = {"dut": "cdc", "depth": 4, "buffered": bool(v), "rst": bool(v), "lay": {"pl": [["a", 8], ["b", 3]], "ql": [["p", 4]]},
+                             "toks": toks, "edges": ["ratio", pa, pb, 0, ob], "n": 160, "meta": meta,
+                             "ps": ["const", 1] if (pa + pb) % 2 else ["per", [1, 1, 0], ob], "cs": ["per", [1, 0, 1, 1], pa] if v else ["const", 1],
+                             "g": 7, "reset": {"dom": "ab"[(pa + ob) % 2], "q8": 3, "split": 8, "guard": ob % 3, "pre": 4 * ((pa + pb) % 2)} if v else None}
+                        out.append(c)
+    return out
 
 
 class ResetCoord:
@@ -229,6 +261,7 @@ def _two_domain_top():
     return top
 
 
+@_structural("c05:stream-structure")
 def run_stream(case):
     top = _two_domain_top()
     try:
@@ -290,12 +323,6 @@ def run_stream(case):
         return rb[c + 1] if c + 1 < len(rb) else tm.k
 
     ctx = "%s depth=%d edges=%r" % (variant, depth, case["edges"])
-    if len(reg) < 2:
-        return bad("structure", "%s: %d synchronisers found, a two-clock FIFO needs both pointers synchronised" % (ctx, len(reg)),
-                   key="c05:stream-structure", cls=cls, cycles=cyc)
-    if case["rst"] and tm.derived_ticks == 0:
-        return bad("structure", "%s: no derived clock domain found (cd.clk.eq(ClockSignal(x))), the FIFO never ran" % ctx,
-                   key="c05:stream-structure", cls=cls, cycles=cyc)
     sent1 = [(inst_a(c), t) for c, t in prod1.sent]
     sent2 = [(inst_a(c), t) for c, t in prod2.sent] if rs else []
     got = [(inst_b(c), t) for c, t in cons.got]
@@ -340,6 +367,13 @@ def run_stream(case):
         cls.append("empty")
     if tm.forced:
         cls.append("forced-resolution")
+    # structural expectations last: a functional symptom, if there is one, is the better report
+    if len(reg) < 2:
+        return bad("structure", "%s: %d synchronisers found, a two-clock FIFO needs both pointers synchronised" % (ctx, len(reg)),
+                   key="c05:stream-structure", cls=cls, cycles=cyc)
+    if case["rst"] and tm.derived_ticks == 0:
+        return bad("structure", "%s: no derived clock domain found (cd.clk.eq(ClockSignal(x))), the FIFO never ran" % ctx,
+                   key="c05:stream-structure", cls=cls, cycles=cyc)
     nt = tm.forced_multibit >= 1 and len(got) >= 8 and full and empty
     return ok(nt=nt, cls=cls, cycles=cyc, counts={"handshakes:" + variant: len(got), "forced-first-flops": tm.forced,
                                                   "injection-opportunities": tm.opportunities})
@@ -377,7 +411,10 @@ def st_bus_case(tier):
                 v = prev ^ _m(w)          # every bit flips: any blend is a word that never existed
             chg.append([draw(st.sampled_from([1, 1, 2, 3, 5, 8, 13, 21, 34, 55])), v])
             prev = v
-        return {"dut": "bussync", "w": w, "edges": draw(cdc.st_edges(max_r=3)), "R": draw(st.sampled_from([1, 2, 3, 3])),
+        edges = draw(cdc.st_edges(max_r=3))
+        if edges[0] == "ratio" and edges[1] > edges[2] and draw(st.booleans()):
+            edges = ["ratio", edges[2], edges[1], edges[3], edges[4]]      # lean towards a faster input domain: that is where T matters
+        return {"dut": "bussync", "w": w, "edges": edges, "R": draw(st.sampled_from([1, 2, 3, 3])),
                 "extra": draw(st.sampled_from([0, 0, 1, 2, 4, 8])), "meta": draw(cdc.st_meta()), "chg": chg}
     return case()
 
@@ -415,6 +452,7 @@ def _plan_bus(case):
     return inst, 4 * ra_ + 3 + case["extra"], times, ra_
 
 
+@_structural("c05:bussync-structure")
 def run_bus(case):
     from migen import Module, Signal
     from migen.genlib.cdc import MultiReg
@@ -487,6 +525,9 @@ def run_bus(case):
         if po.trace[u][0] != vals[-1]:
             return bad("stable-input", "%s: input constant %#x since a-cycle %d; after 2T=%d input cycles and %d output cycles o = %#x"
                        % (ctx, vals[-1], c_last, 2 * T, u - after[0], po.trace[u][0]), key="c05:bussync-stale", cls=cls, cycles=cyc)
+    if not any(m.odomain == "b" for m in reg):
+        return bad("structure", "%s: no synchroniser samples in the output domain (synchronisers sample in: %s): o is not an "
+                   "output-domain signal" % (ctx, sorted({m.odomain for m in reg}) or "none"), key="c05:bussync-structure", cls=cls, cycles=cyc)
     if tm.blended:
         cls.append("blend-forced")
     cls.append("updates:" + ("0-2" if updates < 3 else "3-7" if updates < 8 else ">=8"))
@@ -494,11 +535,390 @@ def run_bus(case):
               counts={"o-updates": updates, "blends-forced": tm.blended, "retry-timeouts": fired})
 
 
+# ======================================================================================= 3. AXI-Lite crossing
+
+def st_axil_case(tier):
+    from vlib import axil
+
+    @st.composite
+    def case(draw):
+        nmax = 10 if tier == "quick" else 30
+        dw = draw(st.sampled_from([32, 32, 64]))
+        nb = dw // 8
+        ops = []
+        for _ in range(draw(st.integers(4, nmax))):
+            we = draw(st.integers(0, 1))
+            ops.append({"we": we, "addr": draw(st.integers(0, 64 // nb - 1)) * nb, "data": draw(st.integers(0, _m(dw))),
+                        "strb": draw(st.sampled_from([_m(nb), _m(nb), 1, _m(nb) & ~1, 0b0110 & _m(nb)])) if we else _m(nb)})
+        return {"dw": dw, "ops": ops, "K": draw(st.sampled_from([1, 2, 4])), "Q": draw(st.sampled_from([1, 2, 4])),
+                "w_after_aw": draw(st.booleans()), "wait_valid": draw(st.booleans()),
+                "gm": draw(st.one_of(st.none(), st.integers(0, 999))), "gs": draw(st.one_of(st.none(), st.integers(0, 999))),
+                "seed": draw(st.integers(0, 2 ** 16)), "ms": axil.st_chan_scheds(draw), "ss": axil.st_chan_scheds(draw),
+                "edges": draw(cdc.st_edges(max_r=8)), "n": draw(st.integers(150, 500 if tier == "quick" else 2500)),
+                "meta": draw(cdc.st_meta()), "swap": draw(st.booleans())}
+    return case()
+
+
+@_structural("c05:axil-structure")
+def run_axil(case):
+    import random
+    from litex.soc.interconnect import axi
+    from vlib import axil, wb
+    dw = case["dw"]
+    nb = dw // 8
+    W = 64
+    ops = case["ops"]
+    top = _two_domain_top()
+    m_if = axi.AXILiteInterface(data_width=dw, address_width=32)
+    s_if = axi.AXILiteInterface(data_width=dw, address_width=32)
+    # swap: the master lives in the second scheduled domain (mirror-image schedules without a second strategy)
+    dm, ds = ("b", "a") if case["swap"] else ("a", "b")
+    top.submodules.dut = axi.AXILiteClockDomainCrossing(m_if, s_if, cd_from=dm, cd_to=ds)
+    n = case["n"]
+    total = n + 400 + 400 * len(ops)
+    inst = fair(cdc.expand_edges(case["edges"], total))
+    ua, ub = edges_at(inst, n)
+    um, us = (ub, ua) if case["swap"] else (ua, ub)
+    r = random.Random(case["seed"])
+    init = [r.randrange(256) for _ in range(W)]
+    model = wb.ByteMem(W, init)
+    master = axil.AXILMaster(m_if, ops, case["ms"], K=case["K"], w_after_aw=case["w_after_aw"], garbage_seed=case["gm"], until=um)
+    slave = axil.AXILMemSlave(s_if, wb.ByteMem(W, init), case["ss"], Q=case["Q"], wait_valid=case["wait_valid"],
+                              garbage_seed=case["gs"], until=us)
+    fin = {"at": None}
+
+    def stop(tm):
+        if not master.finished():
+            return False
+        if fin["at"] is None:
+            fin["at"] = tm.k
+        return tm.k >= fin["at"] + 40          # a little longer: nothing more may arrive at the slave
+
+    tm, reg = cdc.run(top, {dm: [master], ds: [slave]}, inst, DOMS, case["meta"], stop=stop)
+    cyc = tm.k
+    cls = ["dw=%d" % dw, "K=%d" % case["K"], "master-in:" + dm] + cdc.edge_classes(inst[:cyc])
+    ctx = "AXILiteClockDomainCrossing dw=%d master in %s, slave in %s, edges=%r" % (dw, dm, ds, case["edges"])
+    if slave.hold_violations():
+        c_, txt = slave.hold_violations()[0]
+        return bad("slave-side-hold", "%s: %s-cycle %d: %s" % (ctx, ds, c_, txt), key="c05:axil-hold", cls=cls, cycles=cyc)
+    if master.hold_violations():
+        c_, txt = master.hold_violations()[0]
+        return bad("master-side-hold", "%s: %s-cycle %d: %s" % (ctx, dm, c_, txt), key="c05:axil-hold", cls=cls, cycles=cyc)
+    if not master.finished():
+        pend = next(i for i, d in enumerate(master.done) if not d)
+        return bad("termination", "%s: operation %d %r never completed (%d instants; slave saw %d AW, %d W, %d AR)"
+                   % (ctx, pend, ops[pend], cyc, len(slave.aw.got), len(slave.w.got), len(slave.ar.got)),
+                   key="c05:axil-hang", cls=cls, cycles=cyc)
+    nw = sum(1 for o in ops if o["we"])
+    if len(slave.aw.got) != nw or len(slave.w.got) != nw or len(slave.ar.got) != len(ops) - nw:
+        return bad("request-count", "%s: master issued %d writes and %d reads, the slave received %d AW, %d W, %d AR"
+                   % (ctx, nw, len(ops) - nw, len(slave.aw.got), len(slave.w.got), len(slave.ar.got)), key="c05:axil-count", cls=cls, cycles=cyc)
+    # requests arrive unchanged and in order per channel
+    wi = [o for o in ops if o["we"]]
+    ri = [o for o in ops if not o["we"]]
+    for j, ((_, tok), o) in enumerate(zip(slave.aw.got, wi)):
+        if tok[0][0] != o["addr"]:
+            return bad("aw-data", "%s: AW #%d arrived with address %#x, sent %#x" % (ctx, j, tok[0][0], o["addr"]), key="c05:axil-data", cls=cls, cycles=cyc)
+    for j, ((_, tok), o) in enumerate(zip(slave.w.got, wi)):
+        if (tok[0][0], tok[0][1]) != (o["data"], o["strb"]):
+            return bad("w-data", "%s: W #%d arrived as data %#x strb %#x, sent %#x / %#x" % (ctx, j, tok[0][0], tok[0][1], o["data"], o["strb"]),
+                       key="c05:axil-data", cls=cls, cycles=cyc)
+    for j, ((_, tok), o) in enumerate(zip(slave.ar.got, ri)):
+        if tok[0][0] != o["addr"]:
+            return bad("ar-data", "%s: AR #%d arrived with address %#x, sent %#x" % (ctx, j, tok[0][0], o["addr"]), key="c05:axil-data", cls=cls, cycles=cyc)
+    raw = False
+    written = set()
+    for i, o in enumerate(ops):
+        c_, data, resp, tok = master.result[i]
+        if resp != 0:
+            return bad("spurious-error", "%s: access %d %r answered with resp %d" % (ctx, i, o, resp), key="c05:axil-data", cls=cls, cycles=cyc)
+        if o["we"]:
+            model.write(o["addr"], nb, o["data"], o["strb"])
+            written.add(o["addr"])
+        else:
+            exp = model.read(o["addr"], nb)
+            if data != exp:
+                return bad("data", "%s: read #%d of %#x returned %#x, flat memory holds %#x" % (ctx, i, o["addr"], data, exp),
+                           key="c05:axil-data", cls=cls, cycles=cyc)
+            raw = raw or o["addr"] in written
+    if slave.mem.b != model.b:
+        return bad("slave-memory", "%s: slave memory differs from the model after all writes" % ctx, key="c05:axil-data", cls=cls, cycles=cyc)
+    if tm.forced:
+        cls.append("forced-resolution")
+    if raw:
+        cls.append("read-after-write")
+    if len(reg) < 10:
+        return bad("structure", "%s: %d synchronisers found, five two-clock FIFOs need ten" % (ctx, len(reg)), key="c05:axil-structure",
+                   cls=cls, cycles=cyc)
+    return ok(nt=(tm.forced_multibit >= 1 and len(ops) >= 4 and raw), cls=cls, cycles=cyc,
+              counts={"operations": len(ops), "forced-first-flops": tm.forced})
+
+
+# ======================================================================================= 4a. stream.Monitor pulse paths
+
+MON_COUNTERS = ["tokens", "overflows", "underflows", "packets"]
+
+
+def st_mon_case(tier):
+    @st.composite
+    def case(draw):
+        nmax = 12 if tier == "quick" else 40
+        ev = [[draw(st.sampled_from([1, 2, 3, 5, 8, 13, 21])), draw(st.sampled_from(["l", "l", "r", "rl"]))]
+              for _ in range(draw(st.integers(3, nmax)))]
+        return {"cw": draw(st.sampled_from([3, 8, 16])), "edges": draw(cdc.st_edges(max_r=8)), "meta": draw(cdc.st_meta()), "ev": ev,
+                "vs": draw(bench.st_schedule()), "rs": draw(bench.st_schedule()), "ls": draw(bench.st_schedule())}
+    return case()
+
+
+def _plan_mon(case):
+    """instants for domains (sys, b); sys-cycle of every pulse, postponed until >= 3 b-edges lie strictly between two
+    toggles of the same synchroniser"""
+    ev = case["ev"]
+    n = 64 + 16 * sum(g for g, _ in ev)
+    while True:
+        inst = fair(cdc.expand_edges(case["edges"], n))
+        rs_ = [k for k, c in enumerate(inst) if c & 1]
+        rb_ = [k for k, c in enumerate(inst) if c & 2]
+        pulses = []                  # (sys-cycle, kinds)
+        last_t = {"r": None, "l": None}
+        t = 0
+        okp = True
+        for gap, kinds in ev:
+            t += max(1, gap)
+            while True:
+                if t + 1 >= len(rs_):
+                    okp = False
+                    break
+                good = True
+                for kd in kinds:
+                    if last_t[kd] is not None:
+                        lo, hi = rs_[last_t[kd] + 1], rs_[t + 1]
+                        if sum(1 for k in rb_ if lo < k < hi) < 3:
+                            good = False
+                if good:
+                    break
+                t += 1
+            if not okp:
+                break
+            pulses.append((t, kinds))
+            for kd in kinds:
+                last_t[kd] = t
+        if okp:
+            # settle: 8 b-edges, then 8 sys-edges after the last toggle
+            end_from = rs_[t + 1]
+            b_after = [k for k in rb_ if k > end_from]
+            if len(b_after) >= 8:
+                s_after = [k for k in rs_ if k > b_after[7]]
+                if len(s_after) >= 8:
+                    return inst[:s_after[7] + 1], pulses
+        n *= 2
+
+
+@_structural("c05:monitor-structure")
+def run_mon(case):
+    from litex.soc.interconnect import stream
+    from migen import Module, ClockDomain
+    cw = case["cw"]
+    inst, pulses = _plan_mon(case)
+    top = Module()
+    top.clock_domains.cd_sys = ClockDomain("sys")
+    top.clock_domains.cd_b = ClockDomain("b")
+    ep = stream.Endpoint([("data", 8)])
+    mon = stream.Monitor(ep, count_width=cw, clock_domain="b", with_tokens=True, with_overflows=True, with_underflows=True,
+                         with_packets=True)
+    top.submodules.mon = mon
+    at = {}
+    for t, kinds in pulses:
+        at[t] = kinds
+    drv = bench.Driver(lambda t: {mon.reset: int("r" in at.get(t, "")), mon.latch: int("l" in at.get(t, ""))})
+    vs, rs, ls = bench.Schedule(case["vs"]), bench.Schedule(case["rs"]), bench.Schedule(case["ls"])
+    tr = bench.Driver(lambda t: {ep.valid: vs.bit(t), ep.ready: rs.bit(t), ep.last: ls.bit(t)})
+    box = {}
+    # the pulse synchronisers into domain b: their 1-bit synchronised toggles, in creation order (reset, latch)
+    syncs = cdc.LazyProbe(lambda: [m.o for m in box["reg"] if m.width == 1 and m.odomain == "b"])
+    status = bench.Probe([getattr(mon, "_" + c).status for c in MON_COUNTERS])
+    registry = []
+    box["reg"] = registry
+    tm, reg = cdc.run(top, {"sys": [drv, status], "b": [tr, syncs]}, inst, ["sys", "b"], case["meta"], registry=registry)
+    cyc = tm.k
+    cls = ["cw=%d" % cw] + cdc.edge_classes(inst)
+    ctx = "stream.Monitor(count_width=%d, clock_domain='b'), edges=%r" % (cw, case["edges"])
+    n_in = {"r": sum(1 for _, k in pulses if "r" in k), "l": sum(1 for _, k in pulses if "l" in k)}
+    if len(syncs.sigs) != 2:
+        return bad("structure", "%s: %d one-bit synchronisers into the monitored domain, expected the reset and the latch pulse path"
+                   % (ctx, len(syncs.sigs)), key="c05:monitor-structure", cls=cls, cycles=cyc)
+    # model of the counters in domain b, driven by the observed arrival of the pulses
+    mx = _m(cw)
+    cnt = {c: 0 for c in MON_COUNTERS}
+    lat = {c: 0 for c in MON_COUNTERS}
+    n_out = {"r": 0, "l": 0}
+    near = 0
+    trc = syncs.trace
+    for u in range(1, len(trc)):
+        pr = trc[u][0] != trc[u - 1][0]
+        pl = trc[u][1] != trc[u - 1][1]
+        n_out["r"] += pr
+        n_out["l"] += pl
+        v_, r_, l_ = vs.bit(u - 1), rs.bit(u - 1), ls.bit(u - 1)
+        en = {"tokens": v_ and r_, "overflows": v_ and not r_, "underflows": r_ and not v_, "packets": v_ and r_ and l_}
+        for c in MON_COUNTERS:
+            old = cnt[c]
+            if pr:
+                cnt[c] = 0
+            elif en[c] and old != mx:
+                cnt[c] = old + 1
+            if pr:
+                lat[c] = 0
+            elif pl:
+                lat[c] = old
+        if pl and en["tokens"]:
+            near += 1
+    for kd, name in (("r", "reset"), ("l", "latch")):
+        if n_out[kd] != n_in[kd]:
+            return bad("pulse-count", "%s: %d %s pulses entered in sys (>= 3 destination cycles apart), %d came out in the monitored domain"
+                       % (ctx, n_in[kd], name, n_out[kd]), key="c05:monitor-pulses", cls=cls, cycles=cyc)
+    final = status.trace[-1]
+    for c, got in zip(MON_COUNTERS, final):
+        if got != lat[c]:
+            return bad("latched-count", "%s: %s status reads %d after everything settled, the counter latched %d (pulses: %r)"
+                       % (ctx, c, got, lat[c], pulses), key="c05:monitor-count", cls=cls, cycles=cyc)
+    if tm.forced:
+        cls.append("forced-resolution")
+    if any(lat[c] == mx for c in MON_COUNTERS):
+        cls.append("saturated")
+    return ok(nt=(tm.forced >= 1 and n_in["l"] >= 2 and n_in["r"] >= 1 and near >= 1), cls=cls, cycles=cyc,
+              counts={"pulses": n_in["r"] + n_in["l"], "latch-while-counting": near})
+
+
+# ======================================================================================= 4b. UARTBone(cd != sys)
+
+UB_WORDS = 8
+
+
+def st_ub_case(tier):
+    @st.composite
+    def case(draw):
+        ops = []
+        for _ in range(draw(st.integers(2, 5 if tier == "quick" else 12))):
+            ln = draw(st.integers(1, 4))
+            we = draw(st.booleans())
+            ops.append({"we": we, "incr": draw(st.booleans()), "adr": draw(st.integers(0, UB_WORDS - 1)), "len": ln,
+                        "data": [draw(st.integers(0, _m(32))) for _ in range(ln)] if we else []})
+        return {"ops": ops, "edges": draw(cdc.st_edges(max_r=8)), "n": draw(st.integers(100, 400 if tier == "quick" else 2000)),
+                "meta": draw(cdc.st_meta()), "ps": draw(bench.st_schedule()), "cs": draw(bench.st_schedule()),
+                "go": draw(st.one_of(st.just(["const", 1]), bench.st_schedule())), "seed": draw(st.integers(0, 2 ** 16)),
+                "g": draw(st.one_of(st.none(), st.integers(0, 999)))}
+    return case()
+
+
+@_structural("c05:uartbone-structure")
+def run_ub(case):
+    import random
+    from migen import Module, ClockDomain
+    from litex.soc.interconnect import stream
+    from litex.soc.cores import uart
+    from vlib import wb
+
+    class FakePHY(Module):
+        """byte pipe with one register stage per direction: the stages follow whatever domain UARTBone puts the PHY in"""
+
+        def __init__(self):
+            lay = [("data", 8)]
+            self.rx_in = stream.Endpoint(lay)       # host -> device (driven by the bench in domain b)
+            self.tx_out = stream.Endpoint(lay)      # device -> host
+            self.submodules.rxb = stream.Buffer(lay)
+            self.submodules.txb = stream.Buffer(lay)
+            self.comb += [self.rx_in.connect(self.rxb.sink), self.txb.source.connect(self.tx_out)]
+            self.source = self.rxb.source
+            self.sink = self.txb.sink
+
+    top = Module()
+    top.clock_domains.cd_sys = ClockDomain("sys")
+    top.clock_domains.cd_b = ClockDomain("b")
+    phy = FakePHY()
+    dut = uart.UARTBone(phy, clk_freq=int(10e6), cd="b")      # command time-out 1e6 cycles: never within a run
+    top.submodules.dut = dut
+    r = random.Random(case["seed"])
+    mem = [r.getrandbits(32) for _ in range(UB_WORDS)]
+    sm = wb.WBMemSlave(dut.wishbone, UB_WORDS, list(mem))
+    top.submodules.sm = sm
+    ops = list(case["ops"]) + [{"we": False, "incr": True, "adr": 0, "len": UB_WORDS, "data": []}]    # final read-back of everything
+    tx, exp = [], []
+    for o in ops:
+        cmd = {(True, True): 1, (False, True): 2, (True, False): 3, (False, False): 4}[(o["we"], o["incr"])]
+        tx += [cmd, o["len"]] + [(o["adr"] >> s_) & 0xff for s_ in (24, 16, 8, 0)]
+        for k in range(o["len"]):
+            a = (o["adr"] + (k if o["incr"] else 0)) % UB_WORDS
+            if o["we"]:
+                mem[a] = o["data"][k]
+                tx += [(o["data"][k] >> s_) & 0xff for s_ in (24, 16, 8, 0)]
+            else:
+                exp += [(mem[a] >> s_) & 0xff for s_ in (24, 16, 8, 0)]
+    n = case["n"]
+    total = n + 600 + 80 * (len(tx) + len(exp))
+    inst = fair(cdc.expand_edges(case["edges"], total))
+    us, ub = edges_at(inst, n)
+    prod = bench.Producer(phy.rx_in, [((b_,), (), 0, 0) for b_ in tx], case["ps"], garbage_seed=case["g"], until=ub)
+    cons = bench.Consumer(phy.tx_out, case["cs"], until=ub)
+    go = bench.Schedule(case["go"])
+    god = bench.Driver(lambda t: {sm.go: 1 if t >= us else go.bit(t)})
+    wbmon = wb.WBMonitor(dut.wishbone, "UARTBone->wishbone")
+    fin = {"at": None}
+
+    def stop(tm):
+        if not (prod.done() and len(cons.got) >= len(exp)):
+            return False
+        if fin["at"] is None:
+            fin["at"] = tm.k
+        return tm.k >= fin["at"] + 60
+
+    tm, reg = cdc.run(top, {"sys": [god, wbmon], "b": [prod, cons]}, inst, ["sys", "b"], case["meta"], stop=stop)
+    cyc = tm.k
+    cls = cdc.edge_classes(inst[:cyc])
+    ctx = "UARTBone(cd='b'), %d command bytes, edges=%r" % (len(tx), case["edges"])
+    got = [t[0][0] for _, t in cons.got]
+    if cons.hold_violations:
+        return bad("tx-hold", "%s: b-cycle %d: %s" % (ctx, cons.hold_violations[0][0], cons.hold_violations[0][1]), key="c05:uartbone-hold",
+                   cls=cls, cycles=cyc)
+    if wbmon.violations:
+        return bad("wishbone", "%s: %s" % (ctx, wbmon.violations[0][1]), key="c05:uartbone-hold", cls=cls, cycles=cyc)
+    for j, (g_, e_) in enumerate(zip(got, exp)):
+        if g_ != e_:
+            return bad("data", "%s: response byte #%d is %#x, expected %#x (memory model after the preceding writes)" % (ctx, j, g_, e_),
+                       key="c05:uartbone-data", cls=cls, cycles=cyc)
+    if len(got) > len(exp):
+        return bad("spurious", "%s: %d response bytes, %d expected" % (ctx, len(got), len(exp)), key="c05:uartbone-data", cls=cls, cycles=cyc)
+    if len(got) < len(exp) or not prod.done():
+        return bad("termination", "%s: %d of %d command bytes taken, %d of %d response bytes delivered in %d instants"
+                   % (ctx, len(prod.sent), len(tx), len(got), len(exp), cyc), key="c05:uartbone-hang", cls=cls, cycles=cyc)
+    if tm.forced:
+        cls.append("forced-resolution")
+    if len(reg) < 4:
+        return bad("structure", "%s: %d synchronisers found, two two-clock FIFOs need four" % (ctx, len(reg)), key="c05:uartbone-structure",
+                   cls=cls, cycles=cyc)
+    return ok(nt=(tm.forced_multibit >= 1 and any(o["we"] for o in case["ops"])), cls=cls, cycles=cyc,
+              counts={"bytes": len(tx) + len(exp), "forced-first-flops": tm.forced})
+
+
 def subchecks():
     return [
-        Sub("cdc-stream", run_stream, strategy=st_stream_case, examples=(1200, 30000), timeout=(900, 20000),
+        Sub("cdc-stream", run_stream, strategy=st_stream_case, examples=(1000, 25000), timeout=(900, 20000),
             rule="ClockDomainCrossing / AsyncFIFO / UART FIFO: token sequence preserved under generated edge interleavings, "
                  "first-flop resolutions, handshake schedules and common-reset pulses"),
+        Sub("cdc-stream-phases", run_stream, enum=enum_stream, exhaustive=True,
+            rule="ClockDomainCrossing depth 4 (plain; buffered + common reset with a reset pulse): periodic clocks with periods in "
+                 "{1,2,3,5}^2 x phase offsets x {never, always, half} forced resolutions"),
         Sub("bus-synchronizer", run_bus, strategy=st_bus_case, examples=(800, 20000), timeout=(900, 20000),
             rule="BusSynchronizer: only real words, in order, input reflected after 2T+8; ratio <= 3, T >= 4R+3"),
+        Sub("axilite-cdc", run_axil, strategy=st_axil_case, examples=(240, 6000), timeout=(900, 20000),
+            rule="AXILiteClockDomainCrossing: master agent in one scheduled domain, multi-accept memory slave in the other; all "
+                 "operations complete, every request arrives once and unchanged, scoreboard right, hold monitors silent; "
+                 "non-trivial additionally needs a read after a write to the same word"),
+        Sub("monitor-pulse", run_mon, strategy=st_mon_case, examples=(400, 10000), timeout=(900, 20000),
+            rule="stream.Monitor(clock_domain != sys): reset/latch pulses >= 3 destination cycles apart arrive exactly once each; "
+                 "latched token/overflow/underflow/packet counts read back in sys equal a model clocked by the observed pulses; "
+                 "non-trivial = a forced first-flop resolution, >= 2 latches, >= 1 reset, a latch landing on a counting cycle"),
+        Sub("uartbone-cdc", run_ub, strategy=st_ub_case, examples=(96, 2500), timeout=(900, 20000),
+            rule="UARTBone(cd='b') with a registered byte-pipe PHY in b and a Wishbone memory in sys: write/read burst commands, "
+                 "every response byte equals the memory model, final read-back of all words; non-trivial = forced resolution + a write"),
     ]
